@@ -1235,7 +1235,7 @@ def _cond(t: Any) -> Any:
     if isinstance(t, SymInt):
         t = SymBool(z3.simplify(t.nonzero()))
     if isinstance(t, SymBool):
-        r = ENGINE.implied(t.e) if ENGINE.pos >= len(ENGINE.sched) or True else None
+        r = ENGINE.implied(t.e)
         if r is None:
             return t
         return r
